@@ -65,17 +65,40 @@ CHOICE_CLEAR = [Contract(
 
 # ---- native encoder: keys of the result = names of the present members ------------------------------------------
 def record_value(ex, env):
+    # a member as set by the caller, and the placeholder that iteration (items()) puts into an unset slot -- which may
+    # itself count as a value (record type without mandatory members)
     comps = [Obj('Component', {'isValue': Bool('isValue.%d' % i)}, name='c%d' % i) for i in range(3)]
-    nts = [Obj('NamedType', {'isOptional': Bool('isOptional.%d' % i)}, name='nt%d' % i) for i in range(3)]
+    phs = [Obj('Placeholder', {'isValue': Bool('placeholderIsValue.%d' % i)}, name='c%d' % i) for i in range(3)]
+    nts = [Obj('NamedType', {'isOptional': Bool('isOptional.%d' % i), 'name': 'k%d' % i}, name='nt%d' % i) for i in range(3)]
+    is_set = [Bool('isSet.%d' % i) for i in range(3)]
+
+    def slot(ex2, i):
+        return comps[i] if ex2.choose(is_set[i], 'set%d' % i) else phs[i]
 
     def items(ex2, self):
-        return Tup([Tup(['k%d' % i, comps[i]]) for i in range(3)], 'list')
+        return Tup([Tup(['k%d' % i, slot(ex2, i)]) for i in range(3)], 'list')
 
     def getitem(ex2, self, i):
-        return comps[concrete(i)]
-    named = Obj('NamedTypes', {'__truthy__': True}, {'__getitem__': lambda ex2, self, i: nts[concrete(i)]}, name='namedTypes')
-    return Obj('Sequence', {'isInconsistent': False, 'componentType': named}, {'items': items, '__getitem__': getitem},
-               name='value')
+        return slot(ex2, concrete(i))
+
+    def get(ex2, self, idx, default=NOVALUE, instantiate=True):
+        i = concrete(idx)
+        if ex2.choose(is_set[i], 'set%d' % i):
+            return comps[i]
+        return default if instantiate is False else phs[i]
+    named = Obj('NamedTypes', {'__truthy__': True, 'namedTypes': Tup(list(nts))},
+                {'__getitem__': lambda ex2, self, i: nts[concrete(i)]}, name='namedTypes')
+    return Obj('Sequence', {'isInconsistent': False, 'componentType': named},
+               {'items': items, '__getitem__': getitem, 'getComponentByPosition': get}, name='value')
+
+
+def _new_set(ex, *a):
+    def add(ex2, self, x):
+        self.fields['members'].items.append(x)
+
+    def contains(ex2, self, x):
+        return x in self.fields['members'].items
+    return Obj('set', {'members': Tup([], 'list')}, {'add': add, '__contains__': contains}, name='set()')
 
 
 def encode_fun(ex, v, **options):
@@ -86,11 +109,14 @@ NATIVE_SET = Contract(
     id='native.encoder::SetEncoder.encode', file=N, qual='SetEncoder.encode', properties=['C17'],
     params=dict(self=PObj('SetEncoder', protoDict=PConst(FnV(lambda ex: DictV(), 'dict'))),
                 value=PDerived(record_value), encodeFun=PConst(FnV(encode_fun, 'encodeFun')), options=POptions()),
-    globals={'isOptional': {i: Bool('isOptional.%d' % i) for i in range(3)}},
+    globals={'isOptional': {i: Bool('isOptional.%d' % i) for i in range(3)}, 'set': FnV(_new_set, 'set')},
+    loops={0: Loop(unroll=True), 1: Loop(unroll=True)},
     ensures=[('keys-are-present-members.%d' % i,
-              '("k%d" in result) == (not (isOpt%d and not isVal%d))' % (i, i, i)) for i in range(3)] +
+              '("k%d" in result) == (not (isOpt%d and (not isSet%d or not isVal%d)))' % (i, i, i, i)) for i in range(3)] +
             [('values-converted.%d' % i, '("k%d" in result) ==> result["k%d"].of is value[%d]' % (i, i, i)) for i in range(3)],
-    note='python mapping holds exactly the members that are present: an OPTIONAL member without a value is left out')
+    note='python mapping holds exactly the members that are present: an OPTIONAL member that is not set is left out, '
+         'whatever placeholder iteration leaves in its slot')
+NATIVE_SET.globals.update({('isSet%d' % i): Bool('isSet.%d' % i) for i in range(3)})
 NATIVE_SET.globals.update({('isOpt%d' % i): Bool('isOptional.%d' % i) for i in range(3)})
 NATIVE_SET.globals.update({('isVal%d' % i): Bool('isValue.%d' % i) for i in range(3)})
 
